@@ -1264,7 +1264,11 @@ pub fn run(rep: &mut Report) {
                 }
                 let rank = c.syms.len() * 1000 + c.pend.len() * 100 + c.flush.iter().filter(|b| **b).count() * 10 + c.sched.iter().filter(|b| **b != 0).count();
                 for (kind, d) in &o.faults {
-                    record_violation(&vm, format!("C14:{}:{}", sc.name, kind), rank, || (format!("{}: {}", sc.name, d), case_json(&c)));
+                    // The split-step mode of lazy_sink_source (the other half is polled BETWEEN the sink
+                    // half's poll_ready and start_send) gets its own key so that a known finding
+                    // about that mode can never mask a violation of the atomic-send mode.
+                    let scen_key = if sc.name == "lazy_sink_source" && c.param & 1 == 1 { "lazy_sink_source[split-step]" } else { sc.name };
+                    record_violation(&vm, format!("C14:{}:{}", scen_key, kind), rank, || (format!("{}: {}", sc.name, d), case_json(&c)));
                 }
             }
         });
